@@ -106,6 +106,11 @@ const STATEMENTS: &[&str] = &[
     "/* c */",
     "/* a\n * b */",
     "/*! k */",
+    // star runs next to the delimiters and inside
+    "/** d **/",
+    "/***/",
+    "/* a ** b ***/",
+    "a{/* c **/p:e}",
     "@media screen{a{p:e}}",
     "@supports (a: b){a{p:e}}",
     "@font-face{font-family:\"F\";src:url(f.woff)}",
